@@ -76,6 +76,12 @@ class Harness:
         text = self.labels[lab]
         NF = self.nf
         n = NF if good else NF + 1 + t % 2
+        if not good and t % 5 == 1 and self.kind in ("EMG", "Data3D", "Force"):
+            # an item of ANOTHER block family with exactly the right number of frames
+            a = np.arange(self.nf * 3, dtype="<f4").reshape(self.nf, 3)
+            if self.kind == "Data3D":
+                return ForceTorqueTrack(text, a, a.copy(), a.copy())
+            return MarkerTrack(text, a)
         if not good and (t % 3 == 0 or self.kind not in ("EMG", "Data3D", "Force")):
             # only the kinds whose items carry a frame count are required to refuse a wrong length (C16)
             return [None, "a string", 42, object()][t % 4]
@@ -167,6 +173,13 @@ class Harness:
 
     def aux_of(self, b):
         """number of marker links a 3D block encodes (format byTrack: i32 at offset 80)"""
+        if self.kind in CHAN_KINDS:
+            if self.nf == 0 and self.kind != "FPCal":
+                return 0
+            try:
+                return 0 if b.nBytes == len(self.encode_bytes(b)) else -1
+            except Exception:  # noqa: BLE001
+                return -1
         if self.kind != "Data3D":
             return 0
         if self.nf == 0 and len(b):
@@ -287,7 +300,8 @@ class Harness:
                 elif what == "contains":
                     val.append(1 if self.labels[key] in b else 0)
                 elif what == "badkey":
-                    b[[1.5, None, (0,), b""][self.tagc % 4]]
+                    self.tagc += 1
+                    b[[1.5, None, (0,), b"", slice(0, 2)][self.tagc % 5]]
         elif op == "aux":
             def fn():
                 pair = (self.tagc % 5, 7)
